@@ -228,6 +228,12 @@ pub fn candidates(seed: u64) -> Vec<Value> {
         (vec![vec![1], vec![-1, 2], vec![-2, -1, 3]], vec![-3, 3, 0]),
         (vec![vec![1, 2], vec![-1, 2], vec![1, -2], vec![-1, -2]], vec![1, -1]),
         (vec![], vec![]),
+        // an empty clause in every position (the formula has no model: SATSolver::new must report it)
+        (vec![vec![]], vec![]),
+        (vec![vec![], vec![1, 2]], vec![1]),
+        (vec![vec![1, -2], vec![], vec![2, 3]], vec![-1]),
+        (vec![vec![-1], vec![], vec![-1, -2, 3]], vec![2]),
+        (vec![vec![1], vec![-1, 2], vec![2, -3], vec![]], vec![3]),
     ];
     for (cnf, ops) in fixed { out.push(json!({"case": "unitprop", "cnf": cnf, "ops": ops})); }
     // systematic: every clause of 3 distinct variables out of 4 (all polarities) x every ordered pair of decisions
